@@ -79,15 +79,38 @@ pub fn expected_fragments_ex(
     segs: &[Segment],
     rx_buffer: usize,
 ) -> Vec<(u16, Option<u16>, Vec<u8>)> {
-    let segs: Vec<Segment> = segs
-        .iter()
-        .filter(|s| s.bcast.is_none() || s.fir)
-        .cloned()
-        .collect();
-    let segs = &segs[..];
+    expected_fragments_policy(segs, rx_buffer, false, false)
+}
+
+/// Where the statement leaves a choice, every choice is a policy:
+/// * `drop_duplicates`: a segment that repeats the previous one exactly (same source, flags, sequence number, octets) is
+///   discarded, as IEEE 1815 prescribes, and the fragment goes on - instead of the repeat ending the fragment;
+/// * `assemble_broadcasts`: segments that arrive by broadcast are reassembled like any others (the broadcast address is
+///   part of what "same source" means) - instead of a broadcast having to fit one segment.
+pub fn expected_fragments_policy(
+    segs: &[Segment],
+    rx_buffer: usize,
+    drop_duplicates: bool,
+    assemble_broadcasts: bool,
+) -> Vec<(u16, Option<u16>, Vec<u8>)> {
+    let mut kept: Vec<Segment> = vec![];
+    for s in segs {
+        if drop_duplicates {
+            if let Some(p) = kept.last() {
+                if !s.fir && p == s {
+                    continue;
+                }
+            }
+        }
+        if !assemble_broadcasts && s.bcast.is_some() && !s.fir {
+            continue;
+        }
+        kept.push(s.clone());
+    }
+    let segs = &kept[..];
     let mut out = vec![];
     for i in 0..segs.len() {
-        if !segs[i].fir || (segs[i].bcast.is_some() && !segs[i].fin) {
+        if !segs[i].fir || (!assemble_broadcasts && segs[i].bcast.is_some() && !segs[i].fin) {
             continue;
         }
         let mut acc: Vec<u8> = vec![];
@@ -98,6 +121,7 @@ pub fn expected_fragments_ex(
                 if c.fir
                     || c.src != segs[i].src
                     || c.peer != segs[i].peer
+                    || c.bcast != segs[i].bcast
                     || c.seq != (p.seq + 1) & 0x3F
                 {
                     break;
